@@ -578,3 +578,67 @@ M("C20-no-recursion-best", "C20", PT, '''            prefix=prefix + (" " if is_
 ''', ["R20.3"], "grandchildren never get the marker")
 T("C20-t-marker-split", "C20", PT, '    best_symbol = " *** " if best_fitness is not None and deme.best_individual.fitness == best_fitness else " "', '    is_best = best_fitness is not None and deme.best_individual.fitness == best_fitness\n    best_symbol = " *** " if is_best else " "', "marker condition through a local")
 T("C20-t-best-sorted-copy", "C20", ABS, "        return max(self.current_population) if self.current_population else None", "        ranked = sorted(self.current_population)\n        return ranked[-1] if ranked else None", "sorted() copy instead of max")
+
+# ----------------------------------------------------------------------------- C07
+M("C07-id-from-children", "C07", TREE, "        id_suffix = len(self._levels[deme.level + 1])", "        id_suffix = len(deme.children)", ["R07.2"], "ids numbered per parent (duplicates across parents of one level)")
+M("C07-wrong-level-list", "C07", TREE, "                self._levels[target_level].append(child)", "                self._levels[deme.level].append(child)", ["R07.1"], "child registered on its parent's level")
+M("C07-not-added-to-parent", "C07", TREE, "                deme.add_child(child)\n", "", ["R07.1"], "parent does not list the child")
+M("C07-add-child-conditional", "C07", TREE, "                deme.add_child(child)\n", "                if deme.level == 0:\n                    deme.add_child(child)\n", ["R07.1"], "only root children are listed by their parent")
+M("C07-wrong-config", "C07", TREE, "                config = self.config.levels[target_level]", "                config = self.config.levels[min(target_level, 1)]", ["R07.1"], "third level built with the second level's config")
+M("C07-started-plus-one", "C07", TREE, "                    metaepoch_count=self.metaepoch_count,\n                    sprout_seed=ind,", "                    metaepoch_count=self.metaepoch_count + 1,\n                    sprout_seed=ind,", ["R07.1"], "started_at in the future")
+M("C07-no-parent", "C07", TREE, "                    parent_deme=deme,\n", "                    parent_deme=None if deme.level == 0 else deme,\n", ["R07.1"], "root children have no parent recorded")
+M("C07-seed-clone", "C07", TREE, "                    sprout_seed=ind,\n", "                    sprout_seed=ind.clone(),\n", ["R07.1"], "seed is a clone (fitness reset), not the parent's individual")
+M("C07-registry-swapped", "C07", DINIT, "    LHSLevelConfig: LHSDeme,\n    SobolLevelConfig: SobolDeme,", "    LHSLevelConfig: SobolDeme,\n    SobolLevelConfig: LHSDeme,", ["R07.3"], "LHS and Sobol engines swapped")
+M("C07-init-level-shift", "C07", DINIT, "        level=target_level,\n", "        level=target_level + (1 if parent_deme is not None and parent_deme.level > 0 else 0),\n", ["R07.3"], "deep demes record the wrong level")
+M("C07-seed-not-appended", "C07", DE, "            starting_pop.append(seed_ind)\n", "", ["R07.8"], "DE child does not contain its seed")
+M("C07-shade-full-sample", "C07", SH, "                self._pop_size - 1,\n", "                self._pop_size,\n", ["R07.8"], "SHADE child has pop_size + 1 individuals")
+M("C07-ea-seed-perturbed", "C07", EA, "            seed_ind = Individual(x0, problem=self._problem)", "            seed_ind = Individual(x0 + 0.0 * self._sample_std_dev, problem=self._problem) if self._pop_size > 2 else Individual(starting_pop[0].genome, problem=self._problem)", ["R07.8"], "tiny populations duplicate a sample instead of the seed")
+M("C07-best-ever", "C07", GEN, "individuals=[deme.best_current_individual]", "individuals=[deme.best_individual]", ["R07.7"], "BestPerDeme offers the historical best")
+M("C07-nbc-all", "C07", GEN, '''class NBC_Generator(SproutCandidatesGenerator):
+    def __init__(self, distance_factor: float, truncation_factor: float) -> None:
+        self.distance_factor = distance_factor
+        self.truncation_factor = truncation_factor
+        super().__init__()
+
+    def __call__(self, tree) -> dict[AbstractDeme, DemeCandidates]:
+        candidates = {}
+        for level in tree.levels[:-1]:
+            for deme in level:
+                if deme.is_active:
+                    nbc = NearestBetterClustering(
+                        deme.current_population,''', '''class NBC_Generator(SproutCandidatesGenerator):
+    def __init__(self, distance_factor: float, truncation_factor: float) -> None:
+        self.distance_factor = distance_factor
+        self.truncation_factor = truncation_factor
+        super().__init__()
+
+    def __call__(self, tree) -> dict[AbstractDeme, DemeCandidates]:
+        candidates = {}
+        for level in tree.levels[:-1]:
+            for deme in level:
+                if deme.is_active:
+                    nbc = NearestBetterClustering(
+                        deme.all_individuals,''', ["R07.7"], "NBC candidates from the whole history")
+M("C07-started-rewritten", "C07", LHS, "    def run_metaepoch(self, tree) -> None:\n        self.run()\n", "    def run_metaepoch(self, tree) -> None:\n        self._started_at = tree.metaepoch_count - self.metaepoch_count - 1\n        self.run()\n", ["R07.4"], "started_at rewritten after construction")
+M("C07-gen-all-levels", "C07", GEN, '''            for level in tree.levels[:-1]
+            for deme in level
+            if deme.is_active''', '''            for level in tree.levels
+            for deme in level
+            if deme.is_active''', ["R07.6"], "leaf demes offered as parents")
+M("C07-leaf-guard-removed", "C07", TREE, '''        if deme.level >= self.height - 1:
+            raise ValueError("Only non-leaf levels are admissible")
+
+''', "", ["R07.6"], "leaf parents no longer refused")
+M("C07-root-id", "C07", TREE, '            new_id="root",\n', '            new_id="0",\n', ["R07.5"], "root not called 'root'")
+M("C07-levels-pruned", "C07", TREE, '''        if len(self.leaves) > 0:
+            self._logger.info(
+                "Metaepoch finished",''', '''        for level in self._levels[1:]:
+            if len(level) > 50:
+                level.pop(0)
+        if len(self.leaves) > 0:
+            self._logger.info(
+                "Metaepoch finished",''', ["R07.4"], "old demes dropped from their level")
+T("C07-t-inline-level", "C07", TREE, '''                    target_level=target_level,
+                    metaepoch_count=self.metaepoch_count,''', '''                    target_level=deme.level + 1,
+                    metaepoch_count=self.metaepoch_count,''', "target level inlined in the call")
+T("C07-t-seed-inline", "C07", EA, "            seed_ind = Individual(x0, problem=self._problem)\n            starting_pop.append(seed_ind)", "            starting_pop.append(Individual(x0, problem=self._problem))", "seed individual built inline")
